@@ -68,21 +68,22 @@ def wparams? (w : Nat) : Option WParams :=
 
 def wp16 : WParams := ⟨16, 4, 64, 3⟩
 
-/-- `CalcBaseW`, with the bounds check of `input[in]`. state: (in, total, bits, out). -/
-def calcBaseW (p : WParams) (outLen : Nat) (input : Bytes) : Outcome (List Nat) :=
-  let rec go : Nat → Nat → Nat → Nat → List Nat → Outcome (List Nat)
-    | 0, _, _, _, acc => .ok acc.reverse
-    | n+1, inp, total, bits, acc =>
-      if bits = 0 then
-        match input[inp]? with
-        | none => .fault "CalcBaseW input index"
-        | some b =>
-          let bits := 8 - p.logW
-          go n (inp+1) b.toNat bits (((b.toNat >>> bits) % p.w) :: acc)
-      else
-        let bits := bits - p.logW
-        go n inp total bits (((total >>> bits) % p.w) :: acc)
-  go outLen 0 0 0 []
+/-- loop of `CalcBaseW`, with the bounds check of `input[in]`; state: (in, total, bits), digits so far in `acc`. -/
+def baseWGo (p : WParams) (input : Bytes) : Nat → Nat → Nat → Nat → List Nat → Outcome (List Nat)
+  | 0, _, _, _, acc => .ok acc.reverse
+  | n+1, inp, total, bits, acc =>
+    if bits = 0 then
+      match input[inp]? with
+      | none => .fault "CalcBaseW input index"
+      | some b =>
+        let bits := 8 - p.logW
+        baseWGo p input n (inp+1) b.toNat bits (((b.toNat >>> bits) % p.w) :: acc)
+    else
+      let bits := bits - p.logW
+      baseWGo p input n inp total bits (((total >>> bits) % p.w) :: acc)
+
+/-- `CalcBaseW(output, outLen, input, params)` -/
+def calcBaseW (p : WParams) (outLen : Nat) (input : Bytes) : Outcome (List Nat) := baseWGo p input outLen 0 0 0 []
 
 /-- message digits followed by checksum digits (`wotsSign` and `wotsPKFromSig` compute these identically). -/
 def wotsDigits (p : WParams) (msgHash : Bytes) : Outcome (List Nat) := do
